@@ -65,6 +65,9 @@ static void mw_op(const Args &a) {
     else if (name == "replace") { ascon_masked_word_t *w = wobj(id); D(n, replace, w, wobj((int)a.num("src")), size); }
     else if (name == "from") {      // convert a word with m shares into one with n shares
         int m = (int)a.num("m"); need(m); ascon_masked_word_t *src = wobj((int)a.num("src")); ascon_masked_word_t *dst = wnew(id);
+        // an m-share word says nothing about share slots m..MAXS-1 (e.g. after a copy into storage that
+        // held something else): fill them when the plan asks
+        if (a.has("dirty")) for (int k = m; k < MAXS; ++k) memset(&src->S[k], (int)a.num("dirty"), sizeof(src->S[k]));
         if (false) { }
 #if MAXS >= 3
         else if (n == 2 && m == 3) ascon_masked_word_x2_from_x3(dst, src, trng());
@@ -109,6 +112,7 @@ static void ms_op(const Args &a) {
     } else if (name == "from") {
         int m = (int)a.num("m"); need(m); ascon_masked_state_t *src = sobj((int)a.num("src"));
         ascon_masked_state_t *dst = (ascon_masked_state_t *)obj_new(id, "mstate", sizeof(ascon_masked_state_t)).mem; ascon_masked_state_init(dst);
+        if (a.has("dirty")) for (int i = 0; i < 5; ++i) for (int k = m; k < MAXS; ++k) memset(&src->M[i].S[k], (int)a.num("dirty"), sizeof(src->M[i].S[k]));
 #define FROM(N, M) if (n == N && m == M) ascon_x##N##_copy_from_x##M(dst, src, trng()); else
         FROM(2, 2)
 #if MAXS >= 3
